@@ -75,6 +75,9 @@ func Universe3WayW(withBad bool, window int) *Universe {
 		b.BadBlock("bv2", "a1", "M", []*pb.Transaction{b.U.Tx("tA2"), tBad}, false)
 		// the same one level up: a walk g -> bv3 applies a1 and a2 and stops at bv3
 		b.BadBlock("bv3", "a2", "M", []*pb.Transaction{tBad}, false)
+		// a block whose coinbase is a byte-identical copy of its parent's award
+		// (no inputs: only the ledger's same-transaction-twice test stands in its way)
+		b.BadBlockRaw("ra2", "a1", "M", []*pb.Transaction{b.U.Block("a1").Transactions[0]})
 		b.BadBlock("o1", "g", "P", nil, false)
 		b.BadBlock("o2", "o1", "P", nil, false)
 	}
